@@ -24,6 +24,8 @@ One row per (entry point or class-table slot) x (pointer-parameter position).
               arguments, called at their mid-range value, all at 0 and (signed ones) all at -1; allnull = on the row of the FIRST
               entry guard of a function with >= 2 pointer parameters: the failure class an ALL-POINTERS-NULL call must return
               (CMP_EQUAL for the NULL-ordering macros and comp slots); no variants where a non-pointer guard comes first
+           R9 a one-line wrapper (the body after the entry guards is a single return handing the parameter unchanged to a function
+              of the same file, directly or inside  X_ISNULL(...) ? FALSE : TRUE) inherits the callee's entry guard
            R7 functions that cannot be called in the harness (NOT_CALLABLE: X11/Imlib2)    -> rows listed, never claimed
 Besides "rows" the JSON lists "no_pointer_parameters" (exported entry points with nothing to pair with NULL) and "excluded"
 (declared in include/ but not built in the pinned configuration), so that the header scan of checks/c16.py reports only
@@ -106,7 +108,9 @@ def parse_functions(repo, name):
             t = " ".join(mm.group(1).split()).strip()
             ps.append([(t + "*" if t.endswith("*") else t + " *") if arr else t, mm.group(2)])
         guards = []
-        for line in body.split("\n"):
+        blines = body.split("\n")
+        rest_from = len(blines)
+        for li, line in enumerate(blines):
             s = line.strip()
             if not s:
                 continue
@@ -116,8 +120,10 @@ def parse_functions(repo, name):
                 continue
             if s.startswith("USE_VAR(") or s.startswith("va_list") or DECL.match(s) or re.match(r'^D_\w+\(\(.*\)\);$', s):
                 continue
+            rest_from = li
             break
-        res.append(dict(file=name + ".c", static=static, ret=ret, name=fn, params=ps, guards=guards))
+        rest = " ".join(" ".join(blines[rest_from:]).split())
+        res.append(dict(file=name + ".c", static=static, ret=ret, name=fn, params=ps, guards=guards, rest=rest))
     return res, txt
 
 
@@ -151,6 +157,45 @@ def class_tables(txt, members):
         ev.sort(key=lambda x: x.startswith("SPIF_CLASS_VAR"))
         res.append((ev[0], iface, list(zip(names, fns))))
     return res
+
+
+def own_guard(f, n):
+    """(macro, failure value text) of f's entry guard that names parameter n, or None"""
+    for kind, args in f["guards"]:
+        if kind in ("SPIF_OBJ_COMP_CHECK_NULL", "SPIF_COMP_CHECK_NULL"):
+            if n in args:
+                return (kind, "CMP_LESS" if args.index(n) == 0 else "CMP_GREATER")     # NULL sorts below everything
+            continue
+        cond = args[0]
+        if (re.search(r'ISNULL\s*\(\s*%s\s*\)' % re.escape(n), cond) or re.search(r'\b%s\s*!=\s*(\([^)]*\)\s*)?NULL' % re.escape(n), cond)
+                or cond.strip() == n):
+            return (kind, args[1] if len(args) > 1 else "void")
+    return None
+
+
+def delegated_guard(f, n, byname):
+    """R9: the rest of f (after its entry guards) is ONE return statement that hands parameter n unchanged to a function of the
+    same file whose parameter has an entry guard.   return callee(..n..);                          -> the callee's failure class
+                                                     return ((X_ISNULL(callee(..n..))) ? (FALSE) : (TRUE));  -> FALSE when that is NULL"""
+    rest = f.get("rest", "")
+    m = re.fullmatch(r'return\s*\(*\s*(?:\([\w \*]+\)\s*)?(\w+)\s*\((.*)\)\s*\)*\s*;', rest)
+    test = re.fullmatch(r'return\s*\(\s*\(\s*\w+_ISNULL\s*\(\s*(\w+)\s*\((.*?)\)\s*\)\s*\)\s*\?\s*\(?\s*FALSE\s*\)?\s*:\s*\(?\s*TRUE\s*\)?\s*\)\s*;', rest)
+    mm = test or m
+    if not mm or mm.group(1) not in byname:
+        return None
+    callee = byname[mm.group(1)]
+    args = split_args(mm.group(2))
+    if n not in args or args.index(n) >= len(callee["params"]):
+        return None
+    g = own_guard(callee, callee["params"][args.index(n)][1])
+    if not g:
+        return None
+    fc = fail_class(g[1], callee["ret"])
+    if fc == "CALL":
+        return None
+    if test:
+        return (g[0], "FALSE") if fc == "NULL" else None
+    return (g[0], fc) if (is_ptr(f["ret"]) == is_ptr(callee["ret"])) else None
 
 
 def is_ptr(t):
@@ -250,24 +295,14 @@ def main():
             for i, (t, n) in enumerate(f["params"]):
                 if not is_ptr(t):
                     continue
-                g = None
-                for kind, args in f["guards"]:
-                    if kind in ("SPIF_OBJ_COMP_CHECK_NULL", "SPIF_COMP_CHECK_NULL"):
-                        if n in args:
-                            g = (kind, "CMP_LESS" if args.index(n) == 0 else "CMP_GREATER")     # NULL sorts below everything
-                            break
-                        continue
-                    cond = args[0]
-                    if (re.search(r'ISNULL\s*\(\s*%s\s*\)' % re.escape(n), cond) or re.search(r'\b%s\s*!=\s*(\([^)]*\)\s*)?NULL' % re.escape(n), cond)
-                            or cond.strip() == n):
-                        g = (kind, args[1] if len(args) > 1 else "void")
-                        break
+                g = own_guard(f, n)
+                dg = None if g else delegated_guard(f, n, byname)
                 claimed, why, fail = False, "", None
                 if f["name"] in NOT_CALLABLE:
                     rows.append(dict(file=f["file"], owner=OWNER[f["file"]], func=f["name"], via=via, classvar=var, member=member, iface=iface,
                                      ret=f["ret"], params=f["params"], pos=i, pname=n, ptype=t, guard=g[0] if g else None,
                                      fail=None, claimed=False, why="R7 not callable in the harness: " + NOT_CALLABLE[f["name"]],
-                                     nint=0, nsigned=0, allnull=None))
+                                     nint=0, nsigned=0, allnull=None, retchars=False, haslist=False))
                     continue
                 is_self = (i == 0 and n == "self" and is_method)
                 is_show = short == "show" or f["name"].endswith("_show")
@@ -278,6 +313,9 @@ def main():
                     why = "R5 NULL is a defined input (falls back to the plain initialiser)"
                 elif g:
                     claimed, fail, why = True, fail_class(g[1], f["ret"]), "R1 entry guard"
+                elif dg and not is_comp:
+                    g = (dg[0] + " (delegated)", dg[1])
+                    claimed, fail, why = True, dg[1], "R9 one-line wrapper: the callee's entry guard decides"
                 elif is_comp and i <= 1 and f["ret"] == "spif_cmp_t":
                     claimed, fail, why = True, ("CMP_LESS" if i == 0 else "CMP_GREATER"), "R3 comp slot: NULL ordering"
                 elif is_self:
@@ -289,7 +327,9 @@ def main():
                                  fail=fail, claimed=claimed, why=why,
                                  nint=nint if (claimed and not numeric_guard_first) else 0,
                                  nsigned=nsigned if (claimed and not numeric_guard_first) else 0,
-                                 allnull=(first_guard[1] if (first_guard and first_guard[0] == n and claimed) else None)))
+                                 allnull=(first_guard[1] if (first_guard and first_guard[0] == n and claimed) else None),
+                                 retchars=bool(claimed and re.sub(r'\b(register|const)\s+', '', f["ret"]).strip() in ("spif_charptr_t", "char *")),
+                                 haslist=bool(claimed and (iface == "listclass" or any(tt == "spif_list_t" for tt, nn in f["params"])))))
     rows.sort(key=lambda r: (FILES.index(r["file"][:-2]), r["via"], r["classvar"] or "", r["func"], r["pos"]))
     for k, r in enumerate(rows):
         r["id"] = k + 1
@@ -311,9 +351,9 @@ def main():
         f.write("(* fail: failure value class; claimed: the property makes a claim about the row; guard: the pinned     *)\n")
         f.write("(* source's entry guard (\"none\" = no guard of its own).  NOT regenerated by the check.                 *)\n")
         f.write("Rows == <<\n")
-        f.write(",\n".join('  [id |-> %d, key |-> "%s", fail |-> "%s", claimed |-> %s, guard |-> "%s", nint |-> %d, nsigned |-> %d, allnull |-> "%s"]' % (
-            r["id"], r["key"], r["fail"] or "NONE", "TRUE" if r["claimed"] else "FALSE", r["guard"] or "none", r["nint"], r["nsigned"],
-            r["allnull"] or "NONE") for r in rows))
+        f.write(",\n".join('  [id |-> %d, key |-> "%s", fail |-> "%s", claimed |-> %s, guard |-> "%s", nint |-> %d, nsigned |-> %d, allnull |-> "%s", retchars |-> %s, haslist |-> %s]' % (
+            r["id"], r["key"], r["fail"] or "NONE", "TRUE" if r["claimed"] else "FALSE", (r["guard"] or "none").split(" ")[0], r["nint"], r["nsigned"],
+            r["allnull"] or "NONE", "TRUE" if r["retchars"] else "FALSE", "TRUE" if r["haslist"] else "FALSE") for r in rows))
         f.write("\n>>\n================================================================================\n")
     n = len(rows)
     c = sum(r["claimed"] for r in rows)
